@@ -48,7 +48,7 @@ ASSUMPTIONS = ["float64 CPU, one torch thread", "scf_eps 1e-11 for every evaluat
 REQUIRED_MONITORS = ["grad_compared", "grad_compared_density_outputs", "scf_backward_calls", "anderson_calls",
                      "picard_calls", "rho1_backward_calls", "rho2_backward_calls", "degen_symeig_backward_calls",
                      "force_dirs_compared", "hessian_entries_compared", "rho_hook_checked",
-                     "grad_compared_atom_on_hpp_floor"]
+                     "grad_compared_atom_on_hpp_floor", "repeat_grad_compared"]
 CASE_TIMEOUT = 900.0
 # cases not started by then are skipped and reported (VERIF_C07_BUDGET overrides, for runs on a loaded machine)
 BUDGET_S = {"quick": float(os.environ.get("VERIF_C07_BUDGET", 200)), "thorough": float(os.environ.get("VERIF_C07_BUDGET", 1700))}
@@ -67,12 +67,29 @@ TOL_H_SYM = 1e-8
 TOL_H_REL = 2e-5      # * max|H|
 TOL_FREQ = 1e-3       # relative, modes above 300 cm-1
 TOL_HOOK = 1e-4       # relative, derivative of additive-term forward
+CIS_ALLOW = 2e-5      # extra absolute allowance for gradients of the CIS active-state energy (amplitudes converged to
+                      # 1e-9; measured agreement on the clean tree goes into the margins)
 FD_STEPS = (1e-3, 5e-4, 2.5e-4)   # relative to |theta| per atom
 MIN_SPACING = 0.15    # eV; below this the 5th derivative of an orbital energy makes the Richardson difference itself
                       # inaccurate (measured: spacing 0.053 eV -> FD error 3e-6, identical for every backward mode)
 CONVS = [[0, 0.3], [1], [2]]
 MODES = ["leaf", "nonleaf", "callable"]
 PAIR_NAME = "Kbeta"   # pair-level scaling of the resonance integrals, shape (npairs, 4); not in parameterlist
+
+
+def _bad(x, bound=1.0):
+    """True when x exceeds the bound OR is not a finite number (NaN never passes a clause)."""
+    try:
+        x = float(x)
+    except (TypeError, ValueError):
+        return True
+    return not (x <= bound)
+
+
+def _fin(x):
+    """ratio for margins: non-finite counts as a huge excess"""
+    x = float(x)
+    return x if math.isfinite(x) else 1e30
 
 
 def _tol(out, sb, r):
@@ -164,6 +181,15 @@ def gen_cases(tier, seed):
         cfgs = [[mode, sb, (mi + sb + i) % 3] for mi, mode in enumerate(MODES) for sb in (0, 1, 2)]
         head.append({"kind": "param", "mol": mol, "method": method, "geom_seed": int(g.integers(0, 2**31)), "sigma": 0.05,
                      "names": ["g_pp", "g_p2", "h_sp", "zeta_p"], "configs": cfgs, "floor_cell": True,
+                     "dir_seed": int(g.integers(0, 2**31))})
+    # --- repeat cells: one Molecule / Energy object evaluated three times (nudged in place, P0 = previous density)
+    rep = [(["H2O"], "AM1", 1, True), (["CH2O", "CH2O"], "PM3", 2, False), (["H2O", "NH3"], "AM1", 1, False)]
+    if tier == "thorough":
+        rep += [(["CH2O"], "AM1", 2, True), (["NH3", "H2O", "HCN"], "MNDO", 2, False), (["H2O", "H2O"], "MNDO", 1, True),
+                (["CH3F"], "PM3", 1, False), (["H2S", "H2O"], "PM6_SP", 1, False)]
+    for mols_, method, sb, cis in rep:
+        head.append({"kind": "repeat", "mols": mols_, "method": method, "sb": sb, "cis": cis, "ncalls": 3,
+                     "names": ["U_ss", "beta_p", "g_ss"], "geom_seed": int(g.integers(0, 2**31)),
                      "dir_seed": int(g.integers(0, 2**31))})
     # --- forces with a callable (parameters depend on the geometry)
     fplan = [("H2O", "AM1", 0, 2), ("HCN", "PM3", 1, 1)] if tier == "quick" else \
@@ -283,13 +309,13 @@ def setup_worker():
                                 got = ret[which].detach()
                                 err = (got - want).abs()
                                 bound = TOL_HOOK * torch.maximum(want.abs(), 1e-6 * torch.ones_like(want))
-                                ratio = float((err / bound).max())
+                                ratio = _fin((err / bound).max()) if bool(torch.isfinite(err / bound).all()) else 1e30
                                 C[tag + "_hook_checked"] += 1
                                 C["rho_hook_checked"] += 1
                                 _W.setdefault("hook_margin", {})
                                 k = "hook_%s_%s" % (tag, nm2)
                                 _W["hook_margin"][k] = max(_W["hook_margin"].get(k, 0.0), ratio)
-                                if ratio > 1.0:
+                                if _bad(ratio):
                                     sel = g.abs() > 0
                                     prod = (got[sel] / g[sel]) * fd[which][sel]
                                     recip = bool(sel.any()) and bool(((prod - 1).abs() < 1e-3).all())
@@ -600,7 +626,7 @@ def _run_param(case):
     e = ref["e"].detach().numpy()
     spacing = float(np.min(np.diff(np.sort(e)))) if norb > 1 else 9.0
     emo_ok = spacing >= MIN_SPACING
-    fd, fd_bad = {}, {}
+    fd, fd_bad, nonfinite = {}, {}, {}
     C["fd_energy_evaluations"] += 1
     for n in names:
         ests = []
@@ -612,6 +638,9 @@ def _run_param(case):
                 tm[n] = base[n] - h * vdir[n]
                 a, b = value(tp), value(tm)
                 C["fd_energy_evaluations"] += 2
+                nf = [k for k in a if not (math.isfinite(a[k]) and math.isfinite(b[k]))]
+                if nf and n not in nonfinite:
+                    nonfinite[n] = nf
                 ests.append({k: (a[k] - b[k]) / (2 * h) for k in a})
         except _NotConv:
             fd_bad[n] = "not converged at a displaced parameter"
@@ -628,9 +657,18 @@ def _run_param(case):
 
     # ---------------- AD under every configuration -----------------------------------------------
     viol, margins, cells = [], {}, []
+    for n, nf in nonfinite.items():
+        viol.append({"clause": "non-finite-output", "mech": None,
+                     "detail": {"name": n, "outputs": nf, "method": method, "mol": case["mol"],
+                                "note": "returned output is not finite at a parameter value within 1e-3 relative of the table"}})
+    if not all(math.isfinite(float(v.detach())) for v in (ref["Etot"], ref["Hf"], ref["gap"])) or \
+            not bool(torch.isfinite(ref["e"]).all()) or not bool(torch.isfinite(ref["q"]).all()):
+        viol.append({"clause": "non-finite-output", "mech": None, "detail": {"where": "reference evaluation", "method": method,
+                                                                              "mol": case["mol"]}})
     ncomp = [0, 0, 0]  # compared, compared density outputs, nonzero FD
 
     def upd(name, ratio):
+        ratio = _fin(ratio)
         if name not in margins or ratio > margins[name]:
             margins[name] = ratio
 
@@ -689,12 +727,12 @@ def _run_param(case):
                     continue
                 bound = _tol(k, sb, r)
                 if ad is None:
-                    if abs(r) > bound:
+                    if _bad(abs(r), bound):
                         bad.append((k, n, "grad-none", None, r, 1e30))
                     continue
-                ratio = abs(ad - r) / bound
-                if ratio > 1.0:
-                    bad.append((k, n, "grad-mismatch", ad, r, ratio))
+                ratio = _fin(abs(ad - r) / bound)
+                if _bad(ratio):
+                    bad.append((k, n, "grad-mismatch" if math.isfinite(ad) else "grad-non-finite", ad, r, ratio))
         return bad
 
     def worst_ratio(res, sb):
@@ -704,7 +742,7 @@ def _run_param(case):
                 continue
             for n, ad in per.items():
                 if n in fd and fd[n][k][1] and ad is not None:
-                    w = max(w, abs(ad - fd[n][k][0]) / _tol(k, sb, fd[n][k][0]))
+                    w = max(w, _fin(abs(ad - fd[n][k][0]) / _tol(k, sb, fd[n][k][0])))
         return w
 
     def count(res, sb, cfgkey):
@@ -722,7 +760,7 @@ def _run_param(case):
                 C["grad_compared"] += 1
                 ncomp[0] += 1
                 if n in ("g_pp", "g_p2") and any(float(vdir[n][i].abs()) > 0 for i in on_floor):
-                    C["grad_compared_atom_on_hpp_floor"] += 1
+                    C["grad_compared_atom_on_hpp_floor", "repeat_grad_compared"] += 1
                 if k in DENSITY_OUTPUTS:
                     C["grad_compared_density_outputs"] += 1
                     ncomp[1] += 1
@@ -942,15 +980,15 @@ def _run_force(case):
             Ffix = float((fixed["F"] * d).sum())
             rich = {key: (4 * D[key][1] - D[key][0]) / 3 for key in D}
             tol = TOL_F_ABS + TOL_F_REL * abs(Fd)
-            r_hf = abs(Fd + rich["Hf"]) / tol
-            r_et = abs(Fd + rich["Etot"]) / tol
+            r_hf = _fin(abs(Fd + rich["Hf"]) / tol)
+            r_et = _fin(abs(Fd + rich["Etot"]) / tol)
             ndir += 1
             C["force_dirs_compared"] += 1
             ratio = min(r_hf, r_et)
             margins["callable_force_vs_fd"] = max(margins.get("callable_force_vs_fd", 0.0), ratio)
             C["force_matches_dHf"] += int(r_hf <= 1)
             C["force_matches_dEtot"] += int(r_et <= 1)
-            if ratio > 1.0:
+            if _bad(ratio):
                 missing_path = abs(Ffix + rich["Hf"]) / tol <= 1 or abs(Fd - Ffix) < 1e-9
                 badd.append((d, Fd, Ffix, rich, tol, ratio, bool(missing_path)))
         # mechanism attribution by counterfactual replay (labels only)
@@ -969,7 +1007,7 @@ def _run_force(case):
                 wr = 0.0
                 for i, (d, Fd, Ffix, rich, tol, ratio, mp) in enumerate(badd):
                     Fn = float((rn["F"] * d).sum())
-                    r2 = min(abs(Fn + rich["Hf"]), abs(Fn + rich["Etot"])) / (TOL_F_ABS + TOL_F_REL * abs(Fn))
+                    r2 = _fin(min(_fin(abs(Fn + rich["Hf"])), _fin(abs(Fn + rich["Etot"]))) / (TOL_F_ABS + TOL_F_REL * abs(Fn)))
                     wr = max(wr, r2)
                     if r2 <= 1.0 and i not in labels:
                         labels[i] = mech
@@ -1030,10 +1068,12 @@ def _run_hessian(case):
         row = torch.autograd.grad(g1[i], mol.coordinates, retain_graph=True)[0]
         H[i] = row.detach().numpy().reshape(-1)
     C["hessian_rows_by_backprop"] += n3
+    if not np.isfinite(H).all():
+        viol.append({"clause": "hessian-non-finite", "mech": None, "detail": {"n_non_finite": int((~np.isfinite(H)).sum())}})
     hmax = float(np.abs(H).max())
     asym = float(np.abs(H - H.T).max())
-    margins["hessian_symmetry"] = asym / TOL_H_SYM
-    if asym > TOL_H_SYM:
+    margins["hessian_symmetry"] = _fin(asym / TOL_H_SYM)
+    if _bad(asym, TOL_H_SYM):
         viol.append({"clause": "hessian-symmetry", "mech": None, "detail": {"max_asym": asym, "hmax": hmax}})
     # finite difference of the RETURNED forces (public driver, same settings without the unrolling)
     sett_f = {"method": method, "scf_eps": EPS, "scf_converger": [2], "sp2": [False]}
@@ -1056,9 +1096,9 @@ def _run_hessian(case):
     except RuntimeError:
         return {"ineligible": "a displaced force evaluation did not converge"}
     err = float(np.abs(H - Hfd).max())
-    margins["hessian_vs_fd_of_forces"] = err / (TOL_H_REL * hmax)
+    margins["hessian_vs_fd_of_forces"] = _fin(err / (TOL_H_REL * hmax))
     C["hessian_entries_compared"] += n3 * n3
-    if err > TOL_H_REL * hmax:
+    if _bad(err, TOL_H_REL * hmax):
         i, j = np.unravel_index(np.argmax(np.abs(H - Hfd)), H.shape)
         viol.append({"clause": "hessian-vs-fd-of-forces", "mech": None,
                      "detail": {"max_err": err, "hmax": hmax, "entry": [int(i), int(j)], "ad": float(H[i, j]), "fd": float(Hfd[i, j])}})
@@ -1079,8 +1119,10 @@ def _run_hessian(case):
         if len(freq_obs) == len(fr):
             C["frequencies_compared"] += len(fr)
             rel = max([abs(a - b) / max(b, 1.0) for a, b in zip(freq_obs, fr) if b > 300.0] + [0.0])
-            margins["normal_mode_frequencies"] = rel / TOL_FREQ
-            if rel > TOL_FREQ:
+            if not all(math.isfinite(x) for x in freq_obs):
+                rel = float("nan")
+            margins["normal_mode_frequencies"] = _fin(rel / TOL_FREQ)
+            if _bad(rel, TOL_FREQ):
                 viol.append({"clause": "normal-mode-frequencies", "mech": None,
                              "detail": {"printed": freq_obs, "from_fd_hessian": fr.tolist()}})
         else:
@@ -1089,6 +1131,212 @@ def _run_hessian(case):
     return {"nontrivial": True, "violations": viol, "margins": margins, "monitors": mon,
             "cells": ["hessian/%s/conv%d" % (method, conv[0])],
             "obs": {"hmax": hmax, "asym": asym, "err_vs_fd": err, "frequencies_printed": freq_obs, "worst": margins}}
+
+
+# -----------------------------------------------------------------------------------------
+def _run_repeat(case):
+    """The SAME Molecule (and Energy) object evaluated several times: coordinates nudged in place between the calls,
+    P0 = density of the previous call.  From the second call on the package relabels orbitals against the previous
+    call's orbitals, re-uses stored amplitudes etc.; gradients (parameters AND coordinates) of Etot (CIS: total energy of
+    the active state), gap and an orbital-energy contraction must still equal finite differences taken with FRESH
+    objects at the geometry of that call.  A gradient that is None, not finite, silently zero or that cannot be
+    taken (output without graph) fails."""
+    import torch
+
+    from seqm.basics import Energy
+    from seqm.Molecule import Molecule
+    from seqm.seqm_functions.constants import Constants
+    from vlib import run
+
+    C = _W["C"]
+    mon0 = dict(C)
+    method, sb, cis = case["method"], case["sb"], bool(case.get("cis"))
+    g = np.random.default_rng(case["geom_seed"])
+    mols = []
+    for name in case["mols"]:
+        Z, X, q, m = gen.molecule(name)
+        X = gen.distort(X, g, sigma=0.05)
+        X = X @ gen.generic_rotation(X, g).T
+        mols.append((Z, X))
+    if len(mols) == 1:
+        S, Cx = [mols[0][0]], np.asarray(mols[0][1])[None]
+    else:
+        S, Cx = gen.pad_batch(mols)
+        Cx = np.asarray(Cx)
+    S = np.asarray(S)
+    real = S > 0
+    nmol = S.shape[0]
+    Zflat = [int(z) for z in S.reshape(-1) if z > 0]
+    names = list(case["names"])
+    base = _table(method, Zflat, names)
+    names = [n for n in names if float(base[n].abs().max()) > 0]
+    extra = {}
+    if cis:
+        extra = {"excited_states": {"n_states": 3, "tolerance": 1e-9, "method": "cis"}, "active_state": 1}
+    conv = [1]
+    gd = np.random.default_rng(case["dir_seed"])
+    wmol = torch.tensor(gd.uniform(0.5, 1.5, size=nmol))
+
+    def evaluate(coords, theta, mol=None, en=None, P0=None, grad=False):
+        """-> (scalars dict of tensors, mol, en, P, e) ; theta: dict of tensors"""
+        sett = _sett(method, names, sb, conv, extra)
+        sp = torch.tensor(S, dtype=torch.int64)
+        with run.quiet():
+            if mol is None:
+                xyz = torch.tensor(np.asarray(coords, float))
+                mol = Molecule(Constants(), sett, xyz, sp, 0, 1, learned_parameters=dict(theta))
+                en = Energy(mol.seqm_parameters)
+            mol.coordinates.requires_grad_(True)
+            out = en(mol, learned_parameters=dict(theta), all_terms=True, P0=P0)
+        Hf, Etot, Eelec, Enuc, Eiso, EnucAB, e_gap, e, P, charge, notconv = out
+        norb = (4 * mol.nHeavy + mol.nHydro)
+        sc = {"Etot": (Etot * wmol).sum(), "gap": (e_gap.reshape(-1) * wmol).sum(),
+              "emo": sum((e[b, :int(norb[b])] * cvec[b][:int(norb[b])]).sum() * wmol[b] for b in range(nmol))}
+        return sc, mol, en, P, e, bool(notconv.any()), norb
+
+    nmax = 4 * S.shape[1]
+    cvec = [torch.tensor(gd.normal(size=nmax)) for _ in range(nmol)]
+    outs = ["Etot", "gap", "emo"]
+    viol, margins, cells = [], {}, []
+    ncomp = [0]
+
+    def upd(name, ratio):
+        ratio = _fin(ratio)
+        if name not in margins or ratio > margins[name]:
+            margins[name] = ratio
+
+    def fresh_values(coords, theta):
+        sc, _, _, _, e, nc, norb = evaluate(coords, theta)
+        if nc:
+            raise RuntimeError("nc")
+        return {k: float(v.detach()) for k, v in sc.items()}, e.detach(), norb
+
+    # direction vectors
+    dcoord = gd.normal(size=Cx.shape)
+    dcoord[~real] = 0.0
+    dcoord /= np.linalg.norm(dcoord)
+    vdir = {}
+    for n in names:
+        d = torch.tensor(gd.normal(size=tuple(base[n].shape)))
+        vdir[n] = base[n].abs() * d / d.abs().max()
+
+    theta = {n: base[n].clone().requires_grad_(True) for n in names}
+    mol = en = None
+    P0 = None
+    coords_now = Cx.copy()
+    ncalls = int(case.get("ncalls", 3))
+    for call in range(1, ncalls + 1):
+        if call > 1:
+            nud = gd.normal(scale=0.01, size=Cx.shape)
+            nud[~real] = 0.0
+            coords_now = coords_now + nud
+            with torch.no_grad():
+                mol.coordinates.add_(torch.tensor(nud))
+        try:
+            sc, mol, en, P, e, nc, norb = evaluate(coords_now, theta, mol=mol, en=en, P0=P0)
+        except Exception as exc:
+            viol.append({"clause": "repeat-call-raised", "mech": None,
+                         "detail": {"call": call, "exception": ("%s: %s" % (type(exc).__name__, exc))[:400]}})
+            break
+        P0 = P.detach().clone()
+        C["repeat_calls"] += 1
+        if nc:
+            return {"ineligible": "SCF not converged on call %d" % call}
+        if call == 1:
+            continue  # the first call is what every other case already exercises
+        # ---- FD with fresh objects at this geometry ----
+        try:
+            ref, e_ref, _ = fresh_values(coords_now, {n: base[n].clone() for n in names})
+        except RuntimeError:
+            return {"ineligible": "fresh reference not converged"}
+        # same orbital labelling as a fresh evaluation?  (no crossing between the nudged geometries)
+        same_order = all(bool(torch.allclose(e.detach()[b, :int(norb[b])], e_ref[b, :int(norb[b])], atol=1e-6, rtol=0))
+                         for b in range(nmol))
+        spacing = min(float(np.min(np.diff(np.sort(e_ref[b, :int(norb[b])].numpy())))) for b in range(nmol))
+        emo_ok = same_order and spacing >= MIN_SPACING
+        fwd = max(abs(float(sc[k].detach()) - ref[k]) for k in (outs if emo_ok else ["Etot"]))
+        upd("repeat_forward_vs_fresh", fwd / 1e-6)
+        if _bad(fwd, 1e-6):
+            viol.append({"clause": "repeat-forward-differs-from-fresh", "mech": None,
+                         "detail": {"call": call, "max_diff": fwd, "values": {k: float(sc[k].detach()) for k in outs}, "fresh": ref}})
+        fd = {}
+
+        def fdq(make):
+            ests = []
+            for h in make[1]:
+                a, _, _ = fresh_values(*make[0](+h))
+                b, _, _ = fresh_values(*make[0](-h))
+                C["fd_energy_evaluations"] += 2
+                ests.append({k: (a[k] - b[k]) / (2 * h) for k in a})
+            res = {}
+            for k in ests[0]:
+                r1 = (4 * ests[1][k] - ests[0][k]) / 3
+                r2 = (4 * ests[2][k] - ests[1][k]) / 3
+                res[k] = (r2, abs(r2 - r1) <= 0.2 * TOL_G * max(1.0, abs(r2)))
+            return res
+
+        try:
+            fd["coords"] = fdq((lambda h: (coords_now + h * dcoord, {n: base[n].clone() for n in names}), (2e-3, 1e-3, 5e-4)))
+            for n in names:
+                def mk(h, n=n):
+                    t = {k: base[k].clone() for k in names}
+                    t[n] = base[n] + h * vdir[n]
+                    return coords_now, t
+                fd["par_" + n] = fdq((mk, FD_STEPS))
+        except RuntimeError:
+            return {"ineligible": "a displaced evaluation did not converge"}
+        # ---- AD on the repeated object ----
+        inputs = {"coords": (mol.coordinates, torch.tensor(dcoord))}
+        for n in names:
+            inputs["par_" + n] = (theta[n], vdir[n])
+        for k in outs:
+            if k in ("gap", "emo") and not emo_ok:
+                C["skipped_degenerate_orbital_outputs"] += 1
+                continue
+            cl = "energy" if k == "Etot" else "density"
+            try:
+                gr = torch.autograd.grad(sc[k], [inputs[i][0] for i in inputs], retain_graph=True, allow_unused=True)
+            except Exception as exc:
+                viol.append({"clause": "repeat-backward-raised/%s" % cl, "mech": None,
+                             "detail": {"call": call, "output": k, "output_requires_grad": bool(sc[k].requires_grad),
+                                        "exception": ("%s: %s" % (type(exc).__name__, exc))[:300], "sb": sb, "mols": case["mols"]}})
+                continue
+            for (iname, (_, v)), gi in zip(inputs.items(), gr):
+                r, smooth = fd[iname][k]
+                if not smooth:
+                    C["fd_not_smooth_skipped"] += 1
+                    continue
+                bound = _tol(k, sb, r) + (CIS_ALLOW if cis and k == "Etot" else 0.0)
+                C["grad_compared"] += 1
+                C["repeat_grad_compared"] += 1
+                ncomp[0] += int(abs(r) > 1e-6)
+                if k != "Etot":
+                    C["grad_compared_density_outputs"] += 1
+                if gi is None:
+                    if _bad(abs(r), bound):
+                        viol.append({"clause": "repeat-grad-none/%s" % cl, "mech": None,
+                                     "detail": {"call": call, "output": k, "input": iname, "fd": r, "sb": sb, "mols": case["mols"]}})
+                    continue
+                ad = float((gi.detach() * v).sum())
+                ratio = _fin(abs(ad - r) / bound)
+                upd("repeat_%s_%s_sb%d" % (k, "coords" if iname == "coords" else "param", sb), ratio)
+                if _bad(ratio):
+                    viol.append({"clause": "repeat-grad-mismatch/%s" % cl, "mech": None,
+                                 "detail": {"call": call, "output": k, "input": iname, "ad": ad, "fd": r, "ratio_to_bound": ratio,
+                                            "silently_zero": bool(ad == 0.0), "sb": sb, "mols": case["mols"], "method": method,
+                                            "cis": cis}})
+        cells.append("repeat/%s/sb%d/%s/call%d" % (method, sb, "cis" if cis else ("hetero" if len({tuple(r) for r in S.tolist()}) > 1 else
+                                                                                   "uniform%d" % nmol), call))
+    mon = {k: C[k] - mon0.get(k, 0) for k in C if C[k] - mon0.get(k, 0)}
+    # keep at most 2 witnesses per clause
+    seen, keep = {}, []
+    for v in viol:
+        seen[v["clause"]] = seen.get(v["clause"], 0) + 1
+        if seen[v["clause"]] <= 2:
+            keep.append(v)
+    return {"nontrivial": ncomp[0] > 0, "violations": keep, "margins": margins, "monitors": mon, "cells": cells,
+            "obs": {"mols": case["mols"], "names": names, "compared": mon.get("repeat_grad_compared", 0), "worst": margins,
+                    "n_violations_total": len(viol)}}
 
 
 def run_case(case):
@@ -1105,6 +1353,8 @@ def run_case(case):
         res = _run_force(case)
     elif kind == "hessian":
         res = _run_hessian(case)
+    elif kind == "repeat":
+        res = _run_repeat(case)
     else:
         return {"harness_error": "unknown case kind %r" % kind}
     # invariant-at-hook results gathered by the additive-term wrappers while this case ran
